@@ -390,6 +390,9 @@ theorem weak_merge {L : KV} {s o : Props} (h : WeakInv L s) (ho : WeakInv L o) :
 /-- the exact condition under which the merge as it is keeps `Deleted ∩ dom Map = ∅` -/
 def MergeSafe (s o : Props) : Prop := ∀ k, k ∈ s.del → lookup o.m k ≠ none → k ∈ o.mod
 
+instance (s o : Props) : Decidable (MergeSafe s o) :=
+  inferInstanceAs (Decidable (∀ k, k ∈ s.del → lookup o.m k ≠ none → k ∈ o.mod))
+
 theorem merge_delDom_iff {L : KV} {s o : Props} (h : Inv L s) (ho : Inv L o) :
     (∀ k, k ∈ (s.merge o).del → lookup (s.merge o).m k = none) ↔ MergeSafe s o := by
   have he := h.delDom; have oe := ho.delDom; have od := ho.disj
@@ -838,6 +841,9 @@ theorem weak_mergeKinds {L : List Kind} {s o : Ent} (h : WeakKInv L s) (ho : Wea
 /-- the exact condition under which `Node.Merge` as it is keeps `DeletedKinds ∩ Kinds = ∅` -/
 def KMergeSafe (s o : Ent) : Prop := ∀ k, k ∈ s.removed → k ∈ o.kinds → k ∈ o.added
 
+instance (s o : Ent) : Decidable (KMergeSafe s o) :=
+  inferInstanceAs (Decidable (∀ k, k ∈ s.removed → k ∈ o.kinds → k ∈ o.added))
+
 theorem kinv_mergeKinds_iff {L : List Kind} {s o : Ent} (h : KInv L s) (ho : KInv L o) :
     KInv L (s.mergeKinds o) ↔ KMergeSafe s o := by
   have w := weak_mergeKinds h.toWeak ho.toWeak
@@ -1042,6 +1048,26 @@ def Op.SafeAt (st : St) : Op → Prop
 def St.SafeRun (st : St) : List Op → Prop
   | [] => True
   | o :: ops => o.SafeAt st ∧ (st.step false o).SafeRun ops
+
+instance Op.decSafeAt (st : St) : (o : Op) → Decidable (o.SafeAt st)
+  | .pmerge e f => inferInstanceAs (Decidable (MergeSafe (st.get e).props (st.get f).props))
+  | .nmerge e f =>
+    inferInstanceAs (Decidable (MergeSafe (st.get e).props (st.get f).props ∧ KMergeSafe (st.get e) (st.get f)))
+  | .set _ _ _ => isTrue trivial
+  | .setAll _ _ => isTrue trivial
+  | .delete _ _ => isTrue trivial
+  | .read _ => isTrue trivial
+  | .clone _ _ => isTrue trivial
+  | .addKinds _ _ => isTrue trivial
+  | .deleteKinds _ _ => isTrue trivial
+
+instance St.decSafeRun : (st : St) → (ops : List Op) → Decidable (st.SafeRun ops)
+  | _, [] => isTrue trivial
+  | st, o :: ops =>
+    match Op.decSafeAt st o, St.decSafeRun (st.step false o) ops with
+    | isTrue a, isTrue b => isTrue ⟨a, b⟩
+    | isFalse a, _ => isFalse (fun h => a h.1)
+    | _, isFalse b => isFalse (fun h => b h.2)
 
 theorem sinv_step_current {L : Loaded} {st : St} (h : SInv L st) (o : Op) (hs : o.SafeAt st) :
     SInv L (st.step false o) := by
